@@ -150,7 +150,14 @@ pub trait IntRes {
     /// rest (so the error's second field does not survive the crossing)
     #[int_result(AliasRes)]
     fn ir_alias(&self, code: i32) -> AliasRes<u64, TwoErr>;
+    /// one-parameter alias (the error type is part of the alias)
+    #[int_result(Res1)]
+    fn ir_one(&self, code: i32) -> Res1<u64>;
+    #[int_result(Res1)]
+    fn ir_one_unit(&mut self, code: i32) -> Res1<()>;
 }
+
+pub type Res1<T> = Result<T, MyErr>;
 
 #[cglue_trait]
 #[int_result(AliasRes)]
@@ -701,6 +708,14 @@ macro_rules! implementor {
             fn ir_plain(&mut self, code: i32) -> Result<u64, i32> {
                 self.core.enter("ir_plain", code as u64, &[]);
                 if code != 0 { Err(code) } else { Ok(self.core.mix(16)) }
+            }
+            fn ir_one(&self, code: i32) -> Res1<u64> {
+                self.core.enter("ir_one", code as u64, &[]);
+                if code != 0 { Err(MyErr(code)) } else { Ok(self.core.mix(23)) }
+            }
+            fn ir_one_unit(&mut self, code: i32) -> Res1<()> {
+                self.core.enter("ir_one_unit", code as u64, &[]);
+                if code != 0 { Err(MyErr(code)) } else { self.core.mix(24); Ok(()) }
             }
             fn ir_alias(&self, code: i32) -> AliasRes<u64, TwoErr> {
                 self.core.enter("ir_alias", code as u64, &[]);
